@@ -17,7 +17,9 @@ LEVEL_NOTE = [
 RULE = ("generated documents with non-ASCII and astral-plane string values × save/open, dump/load, dumps/loads × formatter options; real `mappyfile format|validate|schema` "
         "subprocesses over file sets mixing valid, invalid (1…300 messages) and unparseable files, several versions; non-trivial = every round trip / run; distinct by content")
 
-EXOTIC = ["Ünïcödé", "日本語", "𝄞 clef", "😀", "ß→∑", "a b", "Ελληνικά", "emoji 🗺 map", "tab\there"]
+EXOTIC = ["Ünïcödé", "日本語", "𝄞 clef", "😀", "ß→∑", "a b", "Ελληνικά", "emoji 🗺 map", "tab\there",
+          # characters that are line boundaries for str.splitlines() but not for the Mapfile lexer or for text-mode files
+          "first\u2028second", "nel\x85here", "page\x0cbreak", "fs\x1cgs\x1d", "vt\x0btab", "ps\u2029end", "two\nlines"]
 CLI = "/venv/bin/mappyfile"
 
 
@@ -68,6 +70,14 @@ def explore(ctx, scale=1.0):
                 d = mappyfile.loads(text)
             except Exception:
                 ctx.count("generated:unparseable (C19 territory)"); continue
+            # the strings the generator wrote are the strings loads holds (the reference is the generator's own record, not a
+            # first load, which a reader defect would corrupt in the same way on every path)
+            meant = sorted(strings(gen.expected(b)))
+            held = sorted(strings(gen.plain_dict(d)))
+            if meant != held and not cr_value:
+                diff = [x for x in meant if x not in held][:3]
+                ctx.violation("value-changed-on-load", f"loads does not hold the string written in the text: {diff!r}", {"text": text, "missing": diff})
+                continue
             o = rng.choice(ppcommon.sample_option_sets(rng, 6))
             if i % 3 == 0:
                 o = dict(o, separate_complex_types=True)      # reorders the dictionary in place: every writer gets a fresh copy
